@@ -33,6 +33,7 @@ fn opts() -> Opts {
     o.first_line_empty_pct = 5;
     o.join_pct = 6;
     o.multiline_tag_pct = 10;
+    o.close_attr_pct = 8;
     o
 }
 
